@@ -199,7 +199,7 @@ func check(c Case, st *rig.Stats) error {
 }
 
 var stats = rig.NewStats("C04",
-	"rapid draws a pool of 2-10 witness-safe patterns and a history of 0-25 Handle/HandleMany/Remove/Remove(methods incl. never-registered, HEAD, OPTIONS, '')/Clean/Prefix.Clean steps, with and without WithTrace; on the fresh router and after every step OPTIONS * is bounded below and above by the model, and for every live pattern the Allow header of OPTIONS and of every 405, Node().Methods(), Node().AllowHeader() and Routes() must equal the model's set (methods + HEAD if GET + OPTIONS + TRACE if configured) as sets. Non-trivial: a step changed the method set of a pattern whose node had been split by a later registration sharing a proper prefix, or removed something while other routes stayed; distinct by hash of the case",
+	"rapid draws a pool of 2-10 witness-safe patterns and a history of 0-25 Handle/HandleMany/Remove/Remove(methods incl. never-registered, HEAD, OPTIONS, '')/Clean/Prefix.Clean steps, with and without WithTrace; on the fresh router and after every step OPTIONS * is bounded below and above by the model, and for every live pattern the Allow header of OPTIONS and of every 405, Node().Methods(), Node().AllowHeader() and Routes() must equal the model's set (methods + HEAD if GET + OPTIONS + TRACE if configured) as sets. Non-trivial: a step changed the method set of a pattern whose node had been split by a later registration sharing a proper prefix, or removed something while other routes stayed; distinct by hash of the case. Later additions to the generated domain: One case in eighty registers 64-520 routes with one method set in one call and takes them away with Clean / Prefix.Clean (per-method bookkeeping at table sizes beyond 8-bit counters).",
 	"Allow strings are compared as sets (split on ',', trimmed), no duplicates allowed",
 	"OPTIONS * may or may not list HEAD")
 
